@@ -91,6 +91,41 @@ theorem perm_files_same (by_ : SortBy) (keep : Item → Bool) (diagsOf : String 
     report by_ keep (files₁.flatMap diagsOf) = report by_ keep (files₂.flatMap diagsOf) :=
   report_order_independent by_ keep _ _ (flatMap_perm diagsOf hp) hinj
 
+/-- **Permuting the file arguments, without the key-injectivity guard.**  Diagnostics that tie on the
+    sort key (same file, line, column and code but different messages) keep their traversal order by
+    stability, and a tie never spans two files — so the report is the same for every order of the
+    file arguments, for any number of files and diagnostics. -/
+theorem perm_files_same_general (by_ : SortBy) (keep : Item → Bool) (diagsOf : String → List Item)
+    (files₁ files₂ : List String) (hp : files₁.Perm files₂)
+    (hsep : ∀ f ∈ files₁, ∀ g ∈ files₁, f ≠ g → ∀ a ∈ diagsOf f, ∀ b ∈ diagsOf g, eqv (leItem by_) a b = false) :
+    report by_ keep (files₁.flatMap diagsOf) = report by_ keep (files₂.flatMap diagsOf) := by
+  unfold report
+  apply ssort_congr (leItem by_) (leItem_total by_) (leItem_trans by_)
+  · exact (flatMap_perm diagsOf hp).filter keep
+  · intro a
+    simp only [List.filter_flatMap]
+    apply flatMap_perm_sparse _ hp
+    intro f hf g hg hfg
+    by_cases h1 : ((diagsOf f).filter keep).filter (eqv (leItem by_) a) = []
+    · exact Or.inl h1
+    · by_cases h2 : ((diagsOf g).filter keep).filter (eqv (leItem by_) a) = []
+      · exact Or.inr h2
+      · exfalso
+        obtain ⟨b, hb⟩ := List.exists_mem_of_ne_nil _ h1
+        obtain ⟨c, hc⟩ := List.exists_mem_of_ne_nil _ h2
+        have hb' := List.mem_filter.mp hb
+        have hc' := List.mem_filter.mp hc
+        have hbm : b ∈ diagsOf f := (List.mem_filter.mp hb'.1).1
+        have hcm : c ∈ diagsOf g := (List.mem_filter.mp hc'.1).1
+        have hab := hb'.2
+        have hac := hc'.2
+        simp only [eqv, Bool.and_eq_true] at hab hac
+        have hbc : eqv (leItem by_) b c = true := by
+          simp only [eqv, Bool.and_eq_true]
+          exact ⟨leItem_trans by_ b a c hab.2 hac.1, leItem_trans by_ c a b hac.2 hab.1⟩
+        rw [hsep f hf g hg hfg b hbm c hcm] at hbc
+        cases hbc
+
 /-- **Checking files together or one by one**: merging the separately produced (sorted) reports
     and sorting again gives the report of the joint run. -/
 theorem regroup_same (by_ : SortBy) (keep : Item → Bool) (a b : List Item)
